@@ -57,6 +57,7 @@ TRUSTED = ['extraction of Data/Table.v to OCaml (ExtrOcamlBasic + ExtrOcamlStrin
 ASSUMPTIONS = ['strings are Latin-1; variable names are Python identifiers (a frame with non-str column labels makes from_dataframe raise TypeError: keywords must be strings — outside the model)',
                '"reproduces the span" is read as: the same labels in the same order (list(new.span) == list(old.span)); the kind of the span object is kept only for DatetimeIndex / MultiIndex / PeriodIndex / TimedeltaIndex, a range / tuple / ndarray / Index span comes back as a list (theorem C19_span_kind_changes); K compares the kind, the oracle does not',
                'K is stricter than the oracle (a change there is reported as no-failing-input-found, not as a counterexample): exact position of the status / iterations columns, order of the dict returned by to_dataframes, the pandas dtype given to text columns, the dtypes and NaN-vs-None cells of the intermediate symbols table, the kind of the rebuilt span object, tables and models being copies of each other (no shared memory)',
+               'the table-validation pass (buckets pdtable/...) pins the behaviour of the installed pandas 3.0.5 / NumPy 2.5.3: a patch release of either library that changes an entry shows up as K disagreements (no-failing-input-found) that have nothing to do with fsic; the table in Data/Table.v then has to be re-tabulated',
                'symbols round trip through CSV-like text is out of scope (pandas.read_csv inference, not fsic code)',
                'pandas coercions (DataFrame construction, Index inference, .values, astype) are modelled functions tabulated from this image; '
                'combinations the table does not cover are TUnmodelled in the model and skipped by K',
@@ -80,7 +81,7 @@ def enc(x):
     elif isinstance(x, np.timedelta64):
         x = pd.Timedelta(x)
     if x is pd.NaT:
-        return ['other', 'NaT']
+        return ['nat']
     if isinstance(x, (bool, np.bool_)):
         return ['b', bool(x)]
     if isinstance(x, (int, np.integer)):
@@ -107,13 +108,16 @@ def enc(x):
         return ['per', FREQ.get(x.freqstr[0], 0), int(x.ordinal)]
     if isinstance(x, pd.Timestamp):
         return ['ts', int(x.value)]
-    return ['other', type(x).__name__]
+    return ['other', type(x).__name__, repr(x)]      # not a cell of the model: oracle only (K skips the case)
 
 
 def dec(j):
     k = j[0]
     if k == 'none':
         return None
+    if k == 'nat':
+        import pandas as pd
+        return pd.NaT
     if k == 'b':
         return bool(j[1])
     if k == 'i':
@@ -214,6 +218,10 @@ def build_span(spec):
         return ix.tz_localize(spec['tz']) if spec.get('tz') else ix
     if t == 'objindex':
         return pd.Index([dec(x) for x in spec['labels']], dtype=object)
+    if t == 'catindex':
+        return pd.CategoricalIndex([dec(x) for x in spec['labels']])
+    if t == 'intervalindex':
+        return pd.IntervalIndex.from_breaks(spec['breaks'])
     raise AssertionError(spec)
 
 
@@ -225,7 +233,7 @@ def span_labels(spec):
     t = spec['type']
     if t == 'range':
         return [['i', spec['start'] + spec['step'] * i] for i in range(spec['n'])]
-    if t in EXPLICIT:
+    if t in EXPLICIT or t == 'catindex':
         return [list(x) for x in spec['labels']]
     key = lib.jhash(spec)
     if key not in _LAB:
@@ -234,7 +242,7 @@ def span_labels(spec):
 
 
 def span_len(spec):
-    return spec['n'] if 'n' in spec else len(spec['labels'])
+    return spec['n'] if 'n' in spec else len(spec['breaks']) - 1 if 'breaks' in spec else len(spec['labels'])
 
 
 def sx_span(spec):
@@ -402,6 +410,11 @@ def impl(case):
                 kw['engine'] = cl['engine']                      # passed through to __init__ unchanged
             extra = ['python'] * int(cl.get('nargs') or 0)         # extra positional arguments
             m2 = None
+            if cl.get('permute') is not None:              # same columns in another order: pairing is by NAME
+                import random as _random
+                order = list(df.columns)
+                _random.Random(cl['permute']).shuffle(order)
+                df = df[order]
 
             def rebuild():
                 nonlocal m2
@@ -530,25 +543,38 @@ def impl(case):
 
 
 def view_probe(m, df, m2):
-    """Are the exchanged objects copies?  Write into the model's float arrays after the export (the frame must not change) and into
-    the frame's float columns after the import (the rebuilt model must not change)."""
+    """Are the exchanged objects copies?  Write into EVERY series of the model after the export (the frame must not change) and
+    into every column of the frame after the import (the rebuilt model must not change): float, int, bool, text, object."""
     import numpy as np
+
+    def scribble(a):
+        if not len(a):
+            return
+        k = a.dtype.kind
+        if k == 'f':
+            a[...] = 12345.5
+        elif k in 'iu':
+            a[...] = 77
+        elif k == 'b':
+            a[...] = ~a
+        elif k == 'U':
+            a[...] = 'Q'
+        elif k == 'O':
+            a[...] = 0
     out = {}
     before = obs_table(df)
-    for k in m.names:
-        if k in m.index and m[k].dtype.kind == 'f' and len(m[k]):
-            m[k][...] = 12345.5
+    for k in list(m.index):
+        scribble(m[k])
     out['export_is_copy'] = obs_table(df) == before
     if m2 is not None:
         before2 = obs_model(m2)
         for c in df.columns:
-            if df[c].dtype.kind == 'f' and len(df):
+            try:
                 a = np.asarray(df[c])
-                try:
-                    a.setflags(write=True)
-                    a[...] = -777.25
-                except Exception:                 # noqa: BLE001 — a frame that refuses the write cannot leak it either
-                    pass
+                a.setflags(write=True)
+                scribble(a)
+            except Exception:                     # noqa: BLE001 — a frame that refuses the write cannot leak it either
+                pass
         out['import_is_copy'] = obs_model(m2) == before2
     return out
 
@@ -936,7 +962,7 @@ def sx_sym(s):
 def modellable(case, o):
     """Inputs the Gallina model can represent at all (Latin-1 text, tabulated cell kinds)."""
     def cells_ok(cs):
-        return all(c[0] != 'other' and (c[0] != 's' or latin1(c[1])) and (c[0] != 'tup' or all(latin1(a) for a in c[1:3] if isinstance(a, str))) for c in cs)
+        return all(c[0] not in ('other', 'nat') and (c[0] != 's' or latin1(c[1])) and (c[0] != 'tup' or all(latin1(a) for a in c[1:3] if isinstance(a, str))) for c in cs)
     k = case['kind']
     if o is None or o.get('timeout'):
         return False
@@ -1146,9 +1172,17 @@ def oracle_table(pre, table, flags, site, fails):
     if len(got) != len(labels):
         bad('index', 'row-count', 'table has %d rows for %d periods' % (len(got), len(labels)))
     elif got != labels and not all(values_equal(a, b) and (a[0] == 'none') == (b[0] == 'none') for a, b in zip(got, labels)):
-        if any(l[0] == 'none' for l in labels) and not all(l[0] == 'none' for l in labels):
+        # the two kept findings excuse ONLY the labels they are about: a None exported as NaN, an int beyond 2^53 exported as the
+        # nearest float (both only in a span pandas turns into a float / str index); every other label must still be right
+        def none_nan(a, b):
+            return b[0] == 'none' and a[0] == 'nan'
+
+        def rounded(a, b):
+            return b[0] == 'i' and abs(b[1]) > 2 ** 53 and a[0] == 'fi' and a[1] == int(float(b[1]))
+        ok = [a == b or (values_equal(a, b) and a[0] != 'none' and b[0] != 'none') or none_nan(a, b) or rounded(a, b) for a, b in zip(got, labels)]
+        if all(ok) and any(none_nan(a, b) for a, b in zip(got, labels)):
             bad('index', 'None-label-becomes-NaN', 'a None label next to other labels is exported as NaN: span %s, index %s' % (labels, got))
-        elif all((a == b or values_equal(a, b)) or (b[0] == 'i' and abs(b[1]) > 2 ** 53 and a[0] == 'fi') for a, b in zip(got, labels)):
+        elif all(ok) and any(rounded(a, b) for a, b in zip(got, labels)):
             bad('index', 'int-label-rounded-through-float64', 'an integer label beyond 2^53 next to float labels is rounded: span %s, index %s' % (labels, got))
         else:
             bad('index', 'label-changed', 'index %s is not the span %s' % (got, labels))
@@ -1261,6 +1295,14 @@ def oracle(case, o):
                         bad('from_dataframe', 'values', 'not-reproduced', 'variable %s: %s became %s' % (name, cells[:6], ncells[:6]))
                     elif ndt != asked:
                         bad('from_dataframe', 'dtype', 'not-the-dtype-asked-for', 'variable %s was rebuilt with dtype %s, dtype=%s was asked for' % (name, ndt, asked))
+        # a table that changes when the model is written to afterwards (or a model that changes with the table) does not HOLD the
+        # exported values: sharing of memory breaks "holding exactly that series' values" / "reproduces every value"
+        v = o.get('views')
+        if isinstance(v, dict) and 'raise' not in v:
+            if v.get('export_is_copy') is False:
+                bad('to_dataframe', 'views', 'table-shares-memory-with-the-model', 'writing to the model after to_dataframe() changed the exported table')
+            if v.get('import_is_copy') is False:
+                bad('from_dataframe', 'views', 'model-shares-memory-with-the-table', 'writing to the table after from_dataframe() changed the rebuilt model')
         # the statement names the functions of fsic.tools as well as the methods: the direct call must meet the same clauses
         if isinstance(o.get('table_direct'), dict):
             oracle_table(pre, o['table_direct'], case['flags'], 'model_to_dataframe', fails)
@@ -1476,6 +1518,15 @@ def span_specs(nmax):
     specs.append({'type': 'dtindex', 'tz': 'Europe/London', 'labels': [['ts', TS_D0 + k * day] for k in (0, 1)]})
     specs.append({'type': 'perindex', 'freq': 'M', 'labels': [['per', 3, 360 + k] for k in (1, 0, 2)]})
     specs.append({'type': 'perindex', 'freq': 'D', 'labels': [['per', 4, 10957 + k] for k in (0, 1, 2)]})
+    # labels the model does not represent (oracle only): NaT inside a DatetimeIndex, CategoricalIndex, IntervalIndex; NaN float label
+    specs.append({'type': 'dtindex', 'labels': [['ts', TS_D0 + 2 * day], ['nat'], ['ts', TS_D0]]})
+    specs.append({'type': 'dtindex', 'labels': [['nat'], ['ts', TS_D0]]})
+    specs.append({'type': 'catindex', 'labels': [['s', 'b'], ['s', 'a'], ['s', 'c']]})
+    specs.append({'type': 'catindex', 'labels': [['s', 'z'], ['s', 'a'], ['s', 'z']]})
+    specs.append({'type': 'intervalindex', 'breaks': [0, 1, 3, 4]})
+    specs.append({'type': 'list', 'labels': [['ff', 3, 1], ['nan'], ['ff', 5, 1]]})
+    specs.append({'type': 'list', 'labels': [['nan'], ['fi', 2], ['fi', 1]]})
+    specs.append({'type': 'nparr', 'labels': [['fi', 2], ['nan'], ['ff', 1, 1]]})
     specs.append({'type': 'objindex', 'labels': [['i', 3], ['s', 'a'], ['tup', 1, 2], ['ff', 5, 1]]})
     specs.append({'type': 'objindex', 'labels': [['s', 'b'], ['s', 'a'], ['s', 'b']]})
     specs.append({'type': 'objindex', 'labels': [['s', 'z'], ['i', 1], ['s', 'a'], ['i', 0]]})
@@ -1545,6 +1596,8 @@ def gen_export(rng, spec, full):
         if cls['dtype'] == 'str' and cls['default'] is not None and cls['default'][0] != 'i':
             cls['default'] = None
     if cls is not None:
+        if rng.random() < 0.4:
+            cls['permute'] = rng.randrange(1000)           # the frame's columns are shuffled before from_dataframe
         u = rng.random()
         if u < 0.1:
             cls['engine'] = 'python'                       # a keyword passed through to __init__
